@@ -2,6 +2,8 @@
 
 package parquet
 
+import "math"
+
 // C03.K2/K3/K5: one Go value, three ingestion paths. The reflection-driven
 // shredder (Schema.Deconstruct), the typed write path (GenericBuffer[T].Write,
 // unsafe sparse arrays and null bitmaps) and re-assembly (Schema.Reconstruct)
@@ -19,6 +21,7 @@ type verifRecA struct {
 	Name  string     `parquet:"name,optional"`
 	Tags  []int32    `parquet:"tags"`
 	Inner verifInner `parquet:"inner"`
+	F     float32    `parquet:"f"`
 }
 
 func verifRowsOfBuffer[T any](vals []T) ([]Row, bool) {
@@ -72,6 +75,7 @@ func VerifH_C03_structPaths() {
 	for i := 0; i < nt; i++ {
 		v.Tags = append(v.Tags, vI32("tag"))
 	}
+	v.F = vF32("f")
 	v.Inner.X = vI32("x")
 	if vChoose("yset", 0, 1) == 1 {
 		y := vI64("y")
@@ -90,6 +94,7 @@ func VerifH_C03_structPaths() {
 		return
 	}
 	vAssert(back.ID == v.ID && back.Name == v.Name && back.Inner.X == v.Inner.X, "scalars re-assemble")
+	vAssert(math.Float32bits(back.F) == math.Float32bits(v.F), "a float32 re-assembles bit for bit (NaN payloads included)")
 	vAssert(len(back.Tags) == len(v.Tags), "list length re-assembles")
 	for i := range v.Tags {
 		if i < len(back.Tags) {
